@@ -159,6 +159,7 @@ class StmtMixin:
             s = st.fork()
             want = self.c.get("locals", {}).get(tgt.id)
             if want is not None and v.ty != want:
+                self.cast_guard(st, v, want, getattr(node, "lineno", None))
                 v = self.coerce(v, want) if not (v.ty == "pylist" and not v.py and isinstance(want, tuple) and want[0] == "seq") \
                     else Val(z3.Empty(sort_of(want)), want)
             s.env[tgt.id] = v
@@ -370,7 +371,7 @@ class StmtMixin:
                     yield st2, flow
 
     # ------------------------------------------------------------------ contracts at call sites
-    def bind_params(self, key, args, kwargs):
+    def bind_params(self, key, args, kwargs, st=None):
         fs = source.find_function(key)
         a = fs.node.args
         names = [x.arg for x in a.args]
@@ -396,6 +397,8 @@ class StmtMixin:
         ptypes = c2.get("params", {})
         for nm in list(bound):
             if nm in ptypes and bound[nm].ty != ptypes[nm]:
+                if st is not None:
+                    self.cast_guard(st, bound[nm], ptypes[nm])
                 bound[nm] = self.coerce(bound[nm], ptypes[nm])
         return bound
 
@@ -405,7 +408,7 @@ class StmtMixin:
             raise Unsupported(f"no contract for callee {key}")
         line = getattr(node, "lineno", None)
         short = key.split(":")[1]
-        bound = self.bind_params(key, args, kwargs)
+        bound = self.bind_params(key, args, kwargs, st)
         pre = st.fork()
         pre.env = dict(bound)
         pre.entry = pre
@@ -415,6 +418,16 @@ class StmtMixin:
             ob_st = st.fork()
             self.oblige(ob_st, "pre@call", f"{short}: {req}", self.truthy(g), line, ordinal=f"{short}.{j}")
         # recursion: variant
+        if key == self.f.key and "decreases_structural" in self.c:
+            # structural recursion on an ADT value: the argument is a direct component of the entry parameter
+            # (well-foundedness of the subterm order on finite trees is a meta-theorem of the ADT theory)
+            pn = self.c["decreases_structural"]
+            a, p0 = bound[pn], self.entry.env[pn]
+            if a.ty == "tree":
+                g = z3.And(Tree.is_Op(p0.t), z3.Or(a.t == Tree.l(p0.t), a.t == Tree.r(p0.t)))
+            else:
+                raise Unsupported("structural variant on non-tree")
+            self.oblige(st, "variant", "recursive call on a direct subtree of the parameter", g, line, ordinal="rec")
         if key == self.f.key and "decreases" in self.c:
             m_call = self.eval_spec(self.c["decreases"], pre, pre)
             m_entry = self.eval_spec(self.c["decreases"], self.entry, self.entry)
@@ -440,9 +453,10 @@ class StmtMixin:
                         # callee may write the whole field: caller must be allowed to as well
                         self.oblige(post, "frame", f"callee {short} modifies {k2}", FALSE, line)
                     post.heap[k2] = fresh_const("H_" + k2.replace(".", "_"), arr.sort())
-            t = fresh_const("top", I)
-            post.conds.append(t >= base.top)
-            post.top = t
+            if c2.get("allocates", True):
+                t = fresh_const("top", I)
+                post.conds.append(t >= base.top)
+                post.top = t
             return post
         post = havocked(st)
         rty = c2.get("returns", "none")
@@ -459,6 +473,9 @@ class StmtMixin:
         for ens in c2.get("ensures", []):
             g = self.eval_spec(ens, sp, pre)
             post.conds.append(self.truthy(g))
+        for mr in c2.get("must_raise", []):
+            g = self.eval_spec(mr, pre, pre)
+            post.conds.append(z3.Not(self.truthy(g)))
         if self.feasible(post):
             yield post, res
         for exc, cond in c2.get("raises", {}).items():
@@ -511,6 +528,7 @@ class StmtMixin:
                 if v.ty == "none" and not is_ref(rty):
                     self.oblige(st, "post", "returns None where a value is required", FALSE, None, ordinal="type")
                     return
+                self.cast_guard(st, v, rty)
                 v = self.coerce(v, rty)
             env = {"result": v}
             for j, ens in enumerate(self.c.get("ensures", [])):
